@@ -17,29 +17,34 @@ package main
 
 import (
 	"go/ast"
+	"go/constant"
 	"go/token"
 	"go/types"
 	"strings"
 )
 
 func (p *Prog) normalizeAST() int {
-	n := 0
+	n := p.referenceParamOrder()
 	for f := range p.Files {
 		n += p.keyStructLits(f)
+		n += p.explicitReturns(f)
 		ast.Inspect(f, func(x ast.Node) bool {
 			switch b := x.(type) {
 			case *ast.BlockStmt:
-				var k int
+				var k, k2 int
+				b.List, k2 = p.spliceClosures(b.List, b)
 				b.List, k = p.foldFieldRuns(b.List)
-				n += k + p.normalizeList(b.List)
+				n += k + k2 + p.normalizeList(b.List)
 			case *ast.CaseClause:
-				var k int
+				var k, k2 int
+				b.Body, k2 = p.spliceClosures(b.Body, b)
 				b.Body, k = p.foldFieldRuns(b.Body)
-				n += k + p.normalizeList(b.Body)
+				n += k + k2 + p.normalizeList(b.Body)
 			case *ast.CommClause:
-				var k int
+				var k, k2 int
+				b.Body, k2 = p.spliceClosures(b.Body, b)
 				b.Body, k = p.foldFieldRuns(b.Body)
-				n += k + p.normalizeList(b.Body)
+				n += k + k2 + p.normalizeList(b.Body)
 			}
 			return true
 		})
@@ -502,4 +507,570 @@ func (p *Prog) LitOf(f *Func, e ast.Expr) *ast.CompositeLit {
 	}
 	cl, _ := e.(*ast.CompositeLit)
 	return cl
+}
+
+// explicitReturns: in a function whose results are all named, a bare "return" is
+// "return r1, r2, ..."; when the statements right before it only assign results
+// ("ok = true; p = &v; return") the assigned values are what is returned ("return
+// true, &v"), and a result that nothing assigns any more is its zero value. The
+// folding is skipped in functions with a defer (which could observe the results).
+func (p *Prog) explicitReturns(f *ast.File) int {
+	n := 0
+	fix := func(ft *ast.FuncType, body *ast.BlockStmt) {
+		if ft == nil || body == nil || ft.Results == nil || len(ft.Results.List) == 0 {
+			return
+		}
+		var objs []types.Object
+		for _, fl := range ft.Results.List {
+			if len(fl.Names) == 0 {
+				return
+			}
+			for _, nm := range fl.Names {
+				if nm.Name == "_" || p.Info.Defs[nm] == nil {
+					return
+				}
+				objs = append(objs, p.Info.Defs[nm])
+			}
+		}
+		idx := map[types.Object]int{}
+		for i, o := range objs {
+			idx[o] = i
+		}
+		hasDefer, bare := false, 0
+		ast.Inspect(body, func(x ast.Node) bool {
+			switch y := x.(type) {
+			case *ast.FuncLit:
+				return false
+			case *ast.DeferStmt:
+				hasDefer = true
+			case *ast.ReturnStmt:
+				if len(y.Results) == 0 {
+					bare++
+				}
+			}
+			return true
+		})
+		if bare == 0 {
+			return
+		}
+		mentions := func(e ast.Expr, set map[types.Object]bool) bool {
+			found := false
+			ast.Inspect(e, func(x ast.Node) bool {
+				if id, ok := x.(*ast.Ident); ok && set[p.ObjOf(id)] {
+					found = true
+				}
+				return !found
+			})
+			return found
+		}
+		var doList func(list []ast.Stmt) []ast.Stmt
+		var doStmt func(st ast.Stmt)
+		doList = func(list []ast.Stmt) []ast.Stmt {
+			for i := 0; i < len(list); i++ {
+				rs, ok := list[i].(*ast.ReturnStmt)
+				if !ok || len(rs.Results) != 0 {
+					doStmt(list[i])
+					continue
+				}
+				vals := make([]ast.Expr, len(objs))
+				assigned := map[types.Object]bool{}
+				j := i
+				if !hasDefer {
+					for j > 0 {
+						as, ok := list[j-1].(*ast.AssignStmt)
+						if !ok || as.Tok != token.ASSIGN || len(as.Lhs) != len(as.Rhs) {
+							break
+						}
+						if len(as.Lhs) > 1 {
+							// a parallel assignment of results only: r1, r2 = e1, e2 (no e mentions a result)
+							okPar := true
+							resSet := map[types.Object]bool{}
+							for _, o := range objs {
+								resSet[o] = true
+							}
+							seen := map[types.Object]bool{}
+							for k, l := range as.Lhs {
+								lid, isID := l.(*ast.Ident)
+								if !isID {
+									okPar = false
+									break
+								}
+								o := p.ObjOf(lid)
+								if _, isRes := idx[o]; !isRes || assigned[o] || seen[o] || mentions(as.Rhs[k], resSet) {
+									okPar = false
+									break
+								}
+								seen[o] = true
+							}
+							if !okPar {
+								break
+							}
+							for k, l := range as.Lhs {
+								o := p.ObjOf(l.(*ast.Ident))
+								assigned[o] = true
+								vals[idx[o]] = as.Rhs[k]
+							}
+							j--
+							continue
+						}
+						lid, ok := as.Lhs[0].(*ast.Ident)
+						if !ok {
+							break
+						}
+						o := p.ObjOf(lid)
+						k, isRes := idx[o]
+						if !isRes || assigned[o] || mentions(as.Rhs[0], assigned) {
+							break
+						}
+						// a later value of the run must not depend on this result either
+						dep := false
+						for _, v := range vals {
+							if v != nil && mentions(v, map[types.Object]bool{o: true}) {
+								dep = true
+							}
+						}
+						if dep {
+							break
+						}
+						assigned[o] = true
+						vals[k] = as.Rhs[0]
+						j--
+					}
+				}
+				for k, o := range objs {
+					if vals[k] == nil {
+						id := &ast.Ident{NamePos: rs.Return, Name: o.Name()}
+						p.Info.Uses[id] = o
+						p.Info.Types[id] = types.TypeAndValue{Type: o.Type()}
+						if p.synthIdent == nil {
+							p.synthIdent = map[*ast.Ident]bool{}
+						}
+						p.synthIdent[id] = true
+						vals[k] = id
+					}
+				}
+				rs.Results = vals
+				n++
+				if j < i {
+					list = append(list[:j], list[i:]...)
+					i = j
+				}
+			}
+			return list
+		}
+		doStmt = func(st ast.Stmt) {
+			switch y := st.(type) {
+			case *ast.BlockStmt:
+				y.List = doList(y.List)
+			case *ast.IfStmt:
+				doStmt(y.Body)
+				if y.Else != nil {
+					doStmt(y.Else)
+				}
+			case *ast.ForStmt:
+				doStmt(y.Body)
+			case *ast.RangeStmt:
+				doStmt(y.Body)
+			case *ast.SwitchStmt:
+				doStmt(y.Body)
+			case *ast.TypeSwitchStmt:
+				doStmt(y.Body)
+			case *ast.SelectStmt:
+				doStmt(y.Body)
+			case *ast.CaseClause:
+				y.Body = doList(y.Body)
+			case *ast.CommClause:
+				y.Body = doList(y.Body)
+			case *ast.LabeledStmt:
+				doStmt(y.Stmt)
+			}
+		}
+		body.List = doList(body.List)
+		// results that nothing assigns (any more): their zero value
+		for _, o := range objs {
+			touched := false
+			ast.Inspect(body, func(x ast.Node) bool {
+				switch y := x.(type) {
+				case *ast.AssignStmt:
+					for _, l := range y.Lhs {
+						if id, ok := unparen(l).(*ast.Ident); ok && p.ObjOf(id) == o {
+							touched = true
+						}
+					}
+				case *ast.IncDecStmt:
+					if id, ok := unparen(y.X).(*ast.Ident); ok && p.ObjOf(id) == o {
+						touched = true
+					}
+				case *ast.UnaryExpr:
+					if id, ok := unparen(y.X).(*ast.Ident); ok && y.Op == token.AND && p.ObjOf(id) == o {
+						touched = true
+					}
+				case *ast.RangeStmt:
+					for _, e := range []ast.Expr{y.Key, y.Value} {
+						if id, ok := e.(*ast.Ident); ok && p.ObjOf(id) == o {
+							touched = true
+						}
+					}
+				}
+				return true
+			})
+			if touched {
+				continue
+			}
+			zero := p.zeroExpr(o.Type())
+			if zero == nil {
+				continue
+			}
+			ast.Inspect(body, func(x ast.Node) bool {
+				if _, isLit := x.(*ast.FuncLit); isLit {
+					return false
+				}
+				if rs, ok := x.(*ast.ReturnStmt); ok {
+					for k, e := range rs.Results {
+						if id, ok := e.(*ast.Ident); ok && p.ObjOf(id) == o {
+							rs.Results[k] = p.zeroExpr(o.Type())
+						}
+					}
+				}
+				return true
+			})
+		}
+	}
+	ast.Inspect(f, func(x ast.Node) bool {
+		switch y := x.(type) {
+		case *ast.FuncDecl:
+			fix(y.Type, y.Body)
+		case *ast.FuncLit:
+			fix(y.Type, y.Body)
+		}
+		return true
+	})
+	return n
+}
+
+// zeroExpr: the zero value of t as an expression (false, nil, 0, ""), nil for types without a literal zero.
+func (p *Prog) zeroExpr(t types.Type) ast.Expr {
+	switch u := t.Underlying().(type) {
+	case *types.Basic:
+		switch {
+		case u.Info()&types.IsBoolean != 0:
+			id := &ast.Ident{Name: "false"}
+			p.Info.Uses[id] = types.Universe.Lookup("false")
+			p.Info.Types[id] = types.TypeAndValue{Type: t, Value: constant.MakeBool(false)}
+			return id
+		case u.Info()&types.IsNumeric != 0:
+			bl := &ast.BasicLit{Kind: token.INT, Value: "0"}
+			p.Info.Types[bl] = types.TypeAndValue{Type: t, Value: constant.MakeInt64(0)}
+			return bl
+		case u.Info()&types.IsString != 0:
+			bl := &ast.BasicLit{Kind: token.STRING, Value: `""`}
+			p.Info.Types[bl] = types.TypeAndValue{Type: t, Value: constant.MakeString("")}
+			return bl
+		}
+	case *types.Pointer, *types.Interface, *types.Slice, *types.Map, *types.Chan, *types.Signature:
+		id := &ast.Ident{Name: "nil"}
+		p.Info.Uses[id] = types.Universe.Lookup("nil")
+		p.Info.Types[id] = types.TypeAndValue{Type: types.Typ[types.UntypedNil]}
+		return id
+	}
+	return nil
+}
+
+// spliceClosures: a parameterless, resultless function literal that is called exactly
+// once, synchronously, where the statement stands — "func() { S }()", or "f := func() {
+// S }" / "var f = func() { S }" with the single use "f()" later in the same list — is the
+// block { S }. Deferred calls of the literal's top level run at the end of the block
+// (in reverse order), which is the same as long as S has no return (such literals are
+// left alone). This is the shape of "withLock(func() { ... })" helpers after inlining
+// and of critical sections wrapped in a local closure.
+func (p *Prog) spliceClosures(list []ast.Stmt, scope ast.Node) ([]ast.Stmt, int) {
+	n := 0
+	asBlock := func(lit *ast.FuncLit) *ast.BlockStmt {
+		if lit.Type.Params != nil && len(lit.Type.Params.List) > 0 {
+			return nil
+		}
+		if lit.Type.Results != nil && len(lit.Type.Results.List) > 0 {
+			return nil
+		}
+		ok := true
+		ast.Inspect(lit.Body, func(x ast.Node) bool {
+			switch y := x.(type) {
+			case *ast.FuncLit:
+				return false
+			case *ast.ReturnStmt:
+				ok = false
+			case *ast.CallExpr:
+				if id, isID := y.Fun.(*ast.Ident); isID && id.Name == "recover" {
+					ok = false
+				}
+			case *ast.DeferStmt:
+				top := false
+				for _, st := range lit.Body.List {
+					if st == ast.Stmt(y) {
+						top = true
+					}
+				}
+				if !top {
+					ok = false
+				}
+			}
+			return ok
+		})
+		if !ok {
+			return nil
+		}
+		var body, tail []ast.Stmt
+		for _, st := range lit.Body.List {
+			if d, isD := st.(*ast.DeferStmt); isD {
+				tail = append([]ast.Stmt{&ast.ExprStmt{X: d.Call}}, tail...)
+				continue
+			}
+			body = append(body, st)
+		}
+		return &ast.BlockStmt{Lbrace: lit.Body.Lbrace, List: append(body, tail...), Rbrace: lit.Body.Rbrace}
+	}
+	uses := func(o types.Object) int {
+		k := 0
+		ast.Inspect(scope, func(x ast.Node) bool {
+			if id, ok := x.(*ast.Ident); ok && p.Info.Uses[id] == o {
+				k++
+			}
+			return true
+		})
+		return k
+	}
+	for i := 0; i < len(list); i++ {
+		// func() { S }()
+		if es, ok := list[i].(*ast.ExprStmt); ok {
+			if c, ok := es.X.(*ast.CallExpr); ok && len(c.Args) == 0 {
+				if lit, ok := unparen(c.Fun).(*ast.FuncLit); ok {
+					if b := asBlock(lit); b != nil {
+						list[i] = b
+						n++
+					}
+				}
+			}
+			continue
+		}
+		// f := func() { S } ... f()
+		var fobj types.Object
+		var lit *ast.FuncLit
+		switch st := list[i].(type) {
+		case *ast.AssignStmt:
+			if st.Tok == token.DEFINE && len(st.Lhs) == 1 && len(st.Rhs) == 1 {
+				if id, ok := st.Lhs[0].(*ast.Ident); ok {
+					if l, ok := unparen(st.Rhs[0]).(*ast.FuncLit); ok {
+						fobj, lit = p.Info.Defs[id], l
+					}
+				}
+			}
+		case *ast.DeclStmt:
+			if gd, ok := st.Decl.(*ast.GenDecl); ok && gd.Tok == token.VAR && len(gd.Specs) == 1 {
+				if vs := gd.Specs[0].(*ast.ValueSpec); len(vs.Names) == 1 && len(vs.Values) == 1 {
+					if l, ok := unparen(vs.Values[0]).(*ast.FuncLit); ok {
+						fobj, lit = p.Info.Defs[vs.Names[0]], l
+					}
+				}
+			}
+		}
+		if fobj == nil || lit == nil {
+			continue
+		}
+		// the uses: one call statement in this list, plus "_ = f"
+		callAt, blanks := -1, []int{}
+		for j := i + 1; j < len(list); j++ {
+			switch st := list[j].(type) {
+			case *ast.ExprStmt:
+				if c, ok := st.X.(*ast.CallExpr); ok && len(c.Args) == 0 {
+					if id, ok := unparen(c.Fun).(*ast.Ident); ok && p.Info.Uses[id] == fobj && callAt < 0 {
+						callAt = j
+					}
+				}
+			case *ast.AssignStmt:
+				if st.Tok == token.ASSIGN && len(st.Lhs) == 1 && len(st.Rhs) == 1 {
+					if l, ok := st.Lhs[0].(*ast.Ident); ok && l.Name == "_" {
+						if r, ok := unparen(st.Rhs[0]).(*ast.Ident); ok && p.Info.Uses[r] == fobj {
+							blanks = append(blanks, j)
+						}
+					}
+				}
+			}
+		}
+		if callAt < 0 || uses(fobj) != 1+len(blanks) {
+			continue
+		}
+		b := asBlock(lit)
+		if b == nil {
+			continue
+		}
+		list[callAt] = b
+		drop := map[int]bool{i: true}
+		for _, j := range blanks {
+			drop[j] = true
+		}
+		var out []ast.Stmt
+		for j, st := range list {
+			if !drop[j] {
+				out = append(out, st)
+			}
+		}
+		list = out
+		i--
+		n++
+	}
+	return list, n
+}
+
+// referenceParamOrder: a function of the reference tree whose parameters were reordered
+// (and possibly renamed) is read with its parameters — and the arguments of every static
+// call — in the reference order, so that rules which address a parameter or an argument
+// by its position keep meaning the same value. A parameter is matched to its reference
+// position by name and type, else by a type that only one unmatched parameter has;
+// functions for which that does not give a permutation (parameters added, removed,
+// merged into a struct, retyped) are left as they are.
+func (p *Prog) referenceParamOrder() int {
+	if len(refFuncParams) == 0 {
+		return 0
+	}
+	n := 0
+	perms := map[types.Object][]int{} // function object -> for each reference position, the current position
+	for f, pk := range p.Files {
+		for _, d := range f.Decls {
+			fd, ok := d.(*ast.FuncDecl)
+			if !ok || fd.Type.Params == nil {
+				continue
+			}
+			name := p.pkgPrefix(pk)
+			if fd.Recv != nil && len(fd.Recv.List) > 0 {
+				name += recvTypeName(fd.Recv.List[0].Type) + "."
+			}
+			name += fd.Name.Name
+			ref, ok := refFuncParams[name]
+			if !ok {
+				continue
+			}
+			cur := p.paramSpecs(fd)
+			if len(cur) != len(ref) {
+				continue
+			}
+			same := true
+			for i := range cur {
+				if cur[i] != ref[i] {
+					same = false
+				}
+			}
+			if same {
+				continue
+			}
+			split := func(s string) (string, string) {
+				i := strings.Index(s, " ")
+				return s[:i], s[i+1:]
+			}
+			perm := make([]int, len(ref))
+			used := make([]bool, len(cur))
+			okAll := true
+			for i := range perm {
+				perm[i] = -1
+			}
+			// by name and type
+			for i, r := range ref {
+				rn, rt := split(r)
+				for j, c := range cur {
+					cn, ct := split(c)
+					if !used[j] && cn == rn && ct == rt && rn != "_" {
+						perm[i], used[j] = j, true
+						break
+					}
+				}
+			}
+			// by a type that identifies one unmatched parameter
+			for i, r := range ref {
+				if perm[i] >= 0 {
+					continue
+				}
+				_, rt := split(r)
+				cand, cnt := -1, 0
+				for j, c := range cur {
+					if _, ct := split(c); !used[j] && ct == rt {
+						cand = j
+						cnt++
+					}
+				}
+				refCnt := 0
+				for i2, r2 := range ref {
+					if _, rt2 := split(r2); perm[i2] < 0 && rt2 == rt {
+						refCnt++
+					}
+				}
+				if cnt != 1 || refCnt != 1 {
+					okAll = false
+					break
+				}
+				perm[i], used[cand] = cand, true
+			}
+			if !okAll {
+				continue
+			}
+			identity := true
+			for i, j := range perm {
+				if i != j {
+					identity = false
+				}
+			}
+			if identity {
+				continue // renamed only
+			}
+			// one field per parameter, in reference order
+			var fields []*ast.Field
+			for _, fl := range fd.Type.Params.List {
+				if len(fl.Names) == 0 {
+					fields = append(fields, fl)
+				}
+				for _, nm := range fl.Names {
+					fields = append(fields, &ast.Field{Names: []*ast.Ident{nm}, Type: fl.Type})
+				}
+			}
+			out := make([]*ast.Field, len(fields))
+			for i, j := range perm {
+				out[i] = fields[j]
+			}
+			fd.Type.Params.List = out
+			if obj := p.Info.Defs[fd.Name]; obj != nil {
+				perms[obj] = perm
+			}
+			n++
+		}
+	}
+	if len(perms) == 0 {
+		return 0
+	}
+	for f := range p.Files {
+		ast.Inspect(f, func(x ast.Node) bool {
+			c, ok := x.(*ast.CallExpr)
+			if !ok {
+				return true
+			}
+			var id *ast.Ident
+			switch fn := unparen(c.Fun).(type) {
+			case *ast.Ident:
+				id = fn
+			case *ast.SelectorExpr:
+				id = fn.Sel
+			}
+			if id == nil {
+				return true
+			}
+			perm, ok := perms[p.Info.Uses[id]]
+			if !ok || len(c.Args) != len(perm) || c.Ellipsis.IsValid() {
+				return true
+			}
+			args := make([]ast.Expr, len(perm))
+			for i, j := range perm {
+				args[i] = c.Args[j]
+			}
+			c.Args = args
+			return true
+		})
+	}
+	return n
 }
